@@ -1,5 +1,5 @@
 """Parallel driver: one process per translation unit (compile -> parse -> execute -> solve -> validate)."""
-import os, sys, time, traceback, multiprocessing as mp, hashlib
+import os, re, sys, time, traceback, multiprocessing as mp, hashlib
 import numpy as np
 import z3
 from . import harness as H, terms as tm, modes, core
@@ -224,6 +224,23 @@ class Ctx:
             o.verdict = 'inconclusive'
             o.reason = str(e)
             return o
+        if diffs and replay is not None and w.n_in and not w.n_iin:
+            # candidate search by evaluation of the encoding: both sides are evaluated (NUM reading of the executed terms)
+            # on the bounded value grid; a difference is a candidate that is replayed natively exactly like a solver
+            # model.  This can only ever produce a (replayed) violation - it never discharges anything; it exists because
+            # z3 does not finish the bit-blasted query when wide-format division or square roots are involved.
+            cand = self.num_search([(a, b) for a, b in zip(lhs, rhs) if a is not b], w, assumptions)
+            if cand is not None:
+                try:
+                    rep, text = replay(cand)
+                except Exception as e:
+                    rep, text = False, 'replay failed: %s' % e
+                if rep:
+                    o.verdict = 'violated'
+                    o.reason = text
+                    o.model = [core.hexf(x) for x in cand]
+                    o.replay = self.save_case(o, cand, getattr(replay, 'case', {}))
+                    return o
         if not diffs:
             cons = asm + [z3.BoolVal(False)]
         else:
@@ -251,6 +268,43 @@ class Ctx:
                         if v == 'unsat' and k_ == kk:
                             break
         return self.decide(o, cons, w, replay, grid=bool(diffs))
+
+    def num_search(self, pairs, w, assumptions=(), budget=3000):
+        """first grid point (values of GRID / GRID_INEXACT per input) at which some pair of terms evaluates differently"""
+        import itertools
+        t = H.NPT[w.in_ty]
+        vals = []
+        for p in GRID:
+            vals.append(t(-0.0) if p == '-0' else t(p.numerator) / t(p.denominator))
+        for q in GRID_INEXACT:
+            vals.append(t(q.numerator) / t(q.denominator))
+        # inexact values first: precision-loss bugs are invisible on values that are exact in every format
+        order = [vals[j] for j in [12, 7, 2, 15, 5, 0, 13, 3, 8, 14, 4, 6, 9, 10, 11, 1] if j < len(vals)]
+        names = sorted({n for a, b in pairs for n in (set(tm.free_args(a)) | set(tm.free_args(b)))})
+        if not names or not all(re.match(r'^x\d+$', n) for n in names) or len(names) > 12:
+            return None
+        k = max(2, min(len(order), int(budget ** (1.0 / len(names)))))
+        n = 0
+        for combo in itertools.product(order[:k], repeat=len(names)):
+            n += 1
+            if n > budget:
+                break
+            env = dict(zip(names, combo))
+            ev = modes.Num(env)
+            try:
+                if any(int(ev.ev(c)) == 0 for c in assumptions):
+                    continue
+                for a, b in pairs:
+                    if a.ty.startswith('f'):
+                        differ = not same_float(H.NPT[a.ty](ev.ev(a)), H.NPT[b.ty](ev.ev(b)))
+                    else:
+                        differ = int(ev.ev(a)) != int(ev.ev(b))
+                    if differ:
+                        xs = [env.get('x%d' % i, t(1)) for i in range(w.n_in)]
+                        return xs
+            except Exception:
+                return None
+        return None
 
     def decide(self, o, cons, w, replay=None, grid=True, want_smt=None):
         """pose the negated obligation `cons` (z3 constraints over x<i>/k<i>); unsat = holds.  A sat model is
